@@ -278,7 +278,7 @@ class Exec(ExprMixin, CallMixin):
         f = m.field
         eng = self.eng
         if key[0] in ('f', 'has'):
-            return f == key[1] or f == key[1].partition('@')[0]
+            return f == key[1] or f == key[1].partition('|')[0]
         if key[0] == 'len':
             return f.startswith('list')
         if key[0] == 'elem':
@@ -874,7 +874,7 @@ class Exec(ExprMixin, CallMixin):
         for k in keys:
             if k == ('alloc',):
                 continue
-            if k[0] in ('f', 'has') and k[1].partition('@')[0] not in self.eng.prop.field_variants \
+            if k[0] in ('f', 'has') and k[1].partition('|')[0] not in self.eng.prop.field_variants \
                     and k[1] not in self.c.fields:
                 continue
             full = self.full_key(k)
